@@ -55,11 +55,19 @@ pub fn run(env: &Env, run: &Run) -> (Stats, Coverage) {
         visit(env, &from_cps(&[c as u32]), st);
         visit(env, &from_cps(&[0x65E5, c as u32]), st);
     }));
+    // every ordered pair of the mapping table's own members (lookup state carried from one
+    // mapped character to the next: cursors, "near" probes, last-hit hints)
+    {
+        let members: Vec<u32> = (0..0x110000u32).filter(|c| env.ud16.width_map(*c).is_some()).collect();
+        let strs: Vec<String> = members.iter().flat_map(|a| members.iter().map(move |b| from_cps(&[*a, *b]))).collect();
+        st.merge(run_family(&strs, |s, st| visit(env, s, st)));
+        st.add("family:member_pairs", strs.len() as u64);
+    }
     let mapped = (0..0x110000u32).filter(|c| env.ud16.width_map(*c).is_some()).count();
     st.sample(json!({"input": ["U+65E5", "U+FF21", "U+FB01"], "expected": "U+65E5 A U+FB01 (only the fullwidth letter is replaced)"}));
     st.sample(json!({"input": ["U+3000"], "expected": "U+0020 (<wide> 0020)"}));
     let cov = Coverage {
-        rule: format!("every string of length <= {} over 14 symbols + pumped runs and ASCII block strings + every scalar value in 10 templates (incl. before the halfwidth and the combining voiced sound marks, whose images compose with kana) and next to each of its 16 other-plane aliases through width_mapping_rule of both username profiles; oracle = per-character replacement by the first code point of the <wide>/<narrow> decomposition in the profile crate's UnicodeData, read by an independent reader; idempotence on the output; non-trivial = first mapped character is not at index 0 (copy-on-first-change path with a non-empty prefix)", n),
+        rule: format!("every string of length <= {} over 14 symbols + pumped runs and ASCII block strings + every scalar value in 10 templates (incl. before the halfwidth and the combining voiced sound marks, whose images compose with kana) and next to each of its 16 other-plane aliases + every ordered pair of the 226 mapped characters through width_mapping_rule of both username profiles; oracle = per-character replacement by the first code point of the <wide>/<narrow> decomposition in the profile crate's UnicodeData, read by an independent reader; idempotence on the output; non-trivial = first mapped character is not at index 0 (copy-on-first-change path with a non-empty prefix)", n),
         alphabet: json!(sigma.iter().map(|c| format!("U+{:04X}", *c as u32)).collect::<Vec<_>>()),
         bound_completed: format!("length <= {} ({} strings) x 2 profiles; sweep 1,112,064 x 10 templates x 2", n, tree_size(sigma.len(), n)),
         exhaustive: false,
